@@ -58,6 +58,23 @@ UNITS += [
                 ("loop_start", "2", "            proof { assert(vap@[it2.index@] == *e); }")],
          ),
 ]
+
+RP = "crates/core/src/repository.rs"
+UNITS += [
+    Unit(name="hot_marker_check", file=RP, kind="block", within="fn open_raw(",
+         anchor="match (config.is_hot == Some(true), self.be_hot.is_some()) {", block_end="@matching_brace",
+         block_sig="fn hot_marker_check(config: &ConfigFile, be_hot: &Option<VHotHandle>) -> (r: RusticResult<()>)",
+         block_tail="    Ok(())",
+         functions=["repository::Repository::open_raw (hot/cold consistency check of the opened config)"],
+         rewrites=[Rw("", "verr()", count=None, kind="err", why="RusticError construction dropped"),
+                   Rw("self.be_hot", "be_hot", count=None, why="statement-block unit: field -> parameter")],
+         contract="""
+    ensures
+        // a repository opens only if its config carries the hot marker exactly when a hot store is attached: the hot part
+        // cannot be opened on its own or used as the cold part, and a plain repository cannot be used with a hot store
+        /*@opens_only_with_matching_hot_marker*/ r is Ok <==> ((config.is_hot == Some(true)) == (be_hot is Some)),
+"""),
+]
 M = "backend::hotcold::verif_kani::"
 HC = "backend::hotcold::HotColdBackend::"
 KANI = [
